@@ -305,7 +305,11 @@ _LIFE2 = [(a, b) for a in LIFE for b in LIFE]
 # quick: delays from the boundary-relevant tick values around the 2 s (8 tick) timeout and its 1 s polls; the third
 # recording is a prompt, healthy one (it is the victim that reveals a misattribution); thorough: everything symbolic
 QB = {'DMAX': 14, 'LAG': 1, 'NS': [3], 'RATES': [1, 3], 'KEEPS': [False], 'L2': [0], 'D2': [0], 'DELAYS': [0, 5, 8, 9, 12, 13]}
-TB = {'DMAX': 16, 'LAG': 2, 'NS': [2, 3], 'RATES': [1, 2, 3], 'KEEPS': [False, True], 'L2': [0, 1, 2, 3], 'DELAYS': None}
+# thorough: (i) delays as symbolic ticks 0..16 (traced, genuinely symbolic), third recording prompt and healthy;
+#           (ii) the enumerated tick set with 2-3 recordings, every third life-cycle kind, all recycle rates, keep-results
+TB = {'DMAX': 16, 'LAG': 1, 'NS': [3], 'RATES': [1, 3], 'KEEPS': [False], 'L2': [0], 'D2': [0], 'DELAYS': None}
+TWIDE = {'b.DELAYS': [0, 5, 8, 9, 12, 13, 16], 'b.NS': [2, 3], 'b.RATES': [1, 2, 3], 'b.KEEPS': [False, True], 'b.L2': [0, 1, 2, 3],
+         'b.D2': [0, 9], 'b.LAG': 2}
 CONDITIONS = [
     {'fn': 'attribution', 'nontrivial': 'worker-failure',
      'what': 'dedicated-process run over 2-3 recordings in the model world: labels, attached playbacks and verdicts; '
@@ -314,7 +318,8 @@ CONDITIONS = [
                          'shards': [{'life': list(p), 'beh': 'equal'} for p in _LIFE2],
                          'witness_shard': {'life': ['ok', 'die'], 'beh': 'equal'}},
                'thorough': {'bounds': TB, 'timeout': 8000,
-                            'shards': [{'life': list(p), 'beh': b} for p in _LIFE2 for b in ('equal', None)],
+                            'shards': [{'life': list(p), 'beh': 'equal'} for p in _LIFE2] +
+                                      [dict({'life': list(p), 'beh': 'equal'}, **TWIDE) for p in _LIFE2],
                             'witness_shard': {'life': ['ok', 'die'], 'beh': 'equal'}}}},
     {'fn': 'modes_agree', 'nontrivial': 'failing-recording',
      'what': 'all per-recording behaviours x recycle rates x keep-results: in-process == dedicated',
